@@ -1750,6 +1750,11 @@ func (a *Agent) handleRoleConflict(msg *stun.Message, local, remote Candidate, r
 	} else {
 		a.isControlling.Store(!a.isControlling.Load())
 		a.setSelector()
+		// RFC 8445 Section 7.3.1.1: the pair priorities are recomputed for the
+		// new role, so that both agents keep ordering the pairs identically.
+		for _, pair := range a.checklist {
+			pair.iceRoleControlling = a.isControlling.Load()
+		}
 	}
 }
 
